@@ -294,6 +294,20 @@ def check(ctx):
     seq = [C.callee(c) for c in C.calls(tu.body(ig)) if C.callee(c) in ('g_slist_prepend', 'g_slist_reverse', 'g_slist_append')]
     r3.check(seq == ['g_slist_prepend', 'g_slist_prepend', 'g_slist_reverse'], 'environment directories precede the default directory', REL, tu.line(ig), 'list ops: %s' % seq, detail=seq)
 
+    # only files of the requested namespace are version candidates: the name must start with "<namespace>-" (namespace AND separator)
+    EN = cgsa.summarise(ctx, REL, 'enumerate_namespace_versions')
+    cands = [e for e in gsa.find(EN, 'call', r'^g_slist_(prepend|append)$') if e.loops]
+    if not cands:
+        raise AnalysisError('enumerate_namespace_versions: candidate list construction not found')
+    nsp = EN.P(0)
+    PFX = re.compile(r'^g_str_has_prefix\((\w+),g_strdup_printf\("%%s-",%s\)\)$' % re.escape(nsp))
+    pa = [a_ for a_ in EN.atoms() if PFX.match(a_)]
+    okp = bool(pa) and all(not gsa.can_hold(e.cond, {pa[0]: False}) for e in cands)
+    r3.check(okp, 'version candidates carry the prefix "<namespace>-"', REL, cands[0].line,
+             'a file becomes a version candidate for %s without its name starting with "<%s>-" (prefix tests: %s): typelibs of other namespaces whose name merely begins with the '
+             'same letters (Gdk / GdkPixbuf-2.0.typelib) are offered as versions of this one' % (nsp, nsp, [a_ for a_ in EN.atoms() if 'has_prefix' in a_]),
+             detail=[a_ for a_ in EN.atoms() if 'has_prefix' in a_])
+
     # ------------------------------------------------------------------ R4 dependencies at the recorded version
     r4 = ctx.rule('R4', 'every recorded dependency is required unconditionally at its recorded version; separator agreement', floor=6)
     ld = tu.func('load_dependencies_recurse')
